@@ -90,6 +90,9 @@ pub struct CreateOpts {
     pub threads: Option<usize>,
     /// number of -v flags
     pub verbose: u8,
+    /// number of -q flags (conflicts with -v)
+    #[serde(default)]
+    pub quiet: u8,
 }
 
 #[derive(Clone, Copy, Debug, PartialEq, Serialize, Deserialize)]
@@ -107,6 +110,11 @@ pub fn create_argv(cs: &CallSet, opts: &CreateOpts, input_name: Option<&str>, sa
     let mut a: Vec<String> = vec!["create".into()];
     for _ in 0..opts.verbose {
         a.push("-v".into());
+    }
+    if opts.verbose == 0 {
+        for _ in 0..opts.quiet {
+            a.push("-q".into());
+        }
     }
     if let Some(map) = &opts.map {
         if map.as_file {
